@@ -57,6 +57,16 @@ def cmd_check(args):
                 "path_secs": budget.get("path_secs", 30.0),
             }
         )
+    # longest-processing-time-first scheduling from the costs measured by an earlier clean run (a hint file, optional)
+    cost_file = os.path.join(VERIF_DIR, "task_costs", f"{prop}-{tier}.json")
+    costs = {}
+    if os.path.exists(cost_file):
+        try:
+            with open(cost_file) as f:
+                costs = json.load(f)
+        except Exception:
+            costs = {}
+    specs.sort(key=lambda sp: -costs.get(json.dumps(sp["params"], sort_keys=True), 1e9))
     results = []
     violation = None
     deadline = t0 + budget.get("max_secs", 3600)
@@ -79,7 +89,12 @@ def cmd_check(args):
                 violation = r
                 break
         pool.terminate()
-    return finish(prop, mod, tier, seed, specs, results, violation, t0)
+    rc = finish(prop, mod, tier, seed, specs, results, violation, t0)
+    if rc == EXIT_OK and os.environ.get("VERIF_WRITE_COSTS") and len(results) == len(specs):
+        os.makedirs(os.path.dirname(cost_file), exist_ok=True)
+        with open(cost_file, "w") as f:
+            json.dump({json.dumps(r["params"], sort_keys=True): r.get("cpu_s", 0) for r in results}, f, indent=0, sort_keys=True)
+    return rc
 
 
 def finish(prop, mod, tier, seed, specs, results, violation, t0, extra_cov=None):
